@@ -101,6 +101,12 @@ def run (d : DSt) (args : List Str) (impl : String) : DSt × String × String ×
       let cnt (i : Nat) : Nat := ((rs.getD i []).filter isResponse).length
       let out := s!"queued r1={cnt 0} r2={cnt 1} order={String.join (List.replicate s'.cbCalls "q,")}{String.join (List.replicate s'.nilCalls "nil,")}"
       (d, out, out, "queued")
+    else if c = str "lateenq" then
+      -- `run` on [expire, request]: the request reaches the group after the nil call and is dropped
+      let (s', rs) := QueryEvent.run 0 {} [.expire, .request .ok [.notFound]]
+      let out := s!"lateenq order={String.join (List.replicate s'.nilCalls "nil,")}{String.join (List.replicate s'.cbCalls "q,")} replies=" ++
+        (if ((rs.getD 1 []).filter isResponse).length ≤ 1 then "at-most-one" else "many")
+      (d, out, out, "lateenq")
     else if c = str "req" ∨ c = str "late" then runReq d c t [] impl
     else if c = str "start" then ({ typ := num t, s := {}, started := true }, "ok", "ok", "start")
     else if c = str "startfail" then
